@@ -268,6 +268,7 @@ type Sim struct {
 	InCallback func(s *Sim, name string, t *pokertable.Table)
 	// InCallbackLive additionally receives the engine's live table (as real callers do).
 	InCallbackLive func(s *Sim, name string, live, clone *pokertable.Table)
+	opSeq          int64         // odd while the harness itself is inside a table operation (see OpSeq)
 	OpenWaitExtra  time.Duration // added to the wait for a hand to open (retry scenarios)
 	FenceWait      time.Duration // overrides the wait for the post-settlement fence when > 0
 
@@ -610,6 +611,11 @@ func (s *Sim) waitForD(timeout time.Duration, pred func(ev *Event) bool) *Event 
 // starved reports whether this process is currently being scheduled so late that the
 // driver's liveness bounds (seconds) say nothing about the engine: five 2 ms sleeps, one of
 // which overshoots by more than 40 ms.
+// OpSeq changes (and is odd) while the harness itself is executing a membership operation or
+// a game action on the table: a callback that compares the engine's table before and after
+// something it does can tell whether the harness moved the table in between.
+func (s *Sim) OpSeq() int64 { return atomic.LoadInt64(&s.opSeq) }
+
 // Starved is starved() for checks that keep their own watchdogs.
 func Starved() bool { return starved() }
 
